@@ -61,12 +61,15 @@ class LCtx(CCtx):
 
 
 class LoopSpec:
-    def __init__(self, inv=None, stable_iter=True, variant=None, locals_ty=None, note='', iter_src=None, term_unverified=False):
+    def __init__(self, inv=None, stable_iter=True, variant=None, locals_ty=None, note='', iter_src=None, term_unverified=False,
+                 forget_history=False):
         """inv(c: LCtx) -> list[(name, formula)];  stable_iter: the iterated container is not modified by the body
         (checked as part of the invariant; licenses done == bag at exit); variant(c) for while loops;
         locals_ty: {name: T} static hints for locals first assigned in the loop."""
         self.inv = inv or (lambda c: [])
         self.stable_iter, self.variant, self.locals_ty, self.note = stable_iter, variant, locals_ty or {}, note
+        self.forget_history = forget_history     # the invariant is self-sufficient: at the loop head, hypotheses about heap versions
+                                                 # older than the head (everything but the pre-state) are dropped (sound: fewer hypotheses)
         self.term_unverified = term_unverified    # while loop whose termination is NOT proved (listed as an unchecked assumption)
         self.iter_src = iter_src      # expected source text of the iterated expression: a loop that iterates something else is a
                                       # shape mismatch (undecided), never checked against the wrong invariant
@@ -76,7 +79,8 @@ class Contract:
     def __init__(self, key, params, returns=None, ghosts=None, requires=None, ensures=None, modifies=(),
                  allocates=False, raises=None, loops=None, decreases=None, pure=False, trusted=False, props=(),
                  locals_ty=None, call_ghosts=None, lemmas=None, is_property=False, note='', exc_modifies=None,
-                 inline=False, call_lemmas=None, term_rel=None, may_raise=(), no_merge=False, defs=None, param_defaults=None, solver_budget=None):
+                 inline=False, call_lemmas=None, term_rel=None, may_raise=(), no_merge=False, defs=None, param_defaults=None, solver_budget=None,
+                 recv_class=None, deepcopy_of=None):
         """key 'module:qualname'.  params: ordered dict name -> T.  ghosts: name -> z3 sort (universally quantified).
         requires/ensures: c -> list[(name, formula)].  raises: {ExcName: (cond(c over pre-state) , ensures_exc(c) or None)}
         — the function raises ExcName iff cond.  modifies: array names the function may write (coarse frame; the fine
@@ -105,6 +109,8 @@ class Contract:
         self.defs = defs or (lambda c: [])   # definitional axioms of spec function symbols (conservative extensions): assumed, never proved
         self.param_defaults = dict(param_defaults or {})   # declared default values of parameters (callers that omit the argument rely on them)
         self.solver_budget = solver_budget   # seconds per solver attempt for this function's obligations (a known slow proof), else the tier default
+        self.recv_class = dict(recv_class or {})   # attribute -> class: receiver of a store through an untyped value (the class is an OBLIGATION at the store)
+        self.deepcopy_of = dict(deepcopy_of or {})  # source text of the argument of copy.deepcopy -> key of the assumed contract to use there
         self.no_merge = no_merge             # keep paths separate at joins (one obligation per path: smaller queries)
         self.may_raise = tuple(may_raise)    # exception classes whose absence is NOT proved here (left to the bounded floor; listed in evidence)
         self.term_rel = term_rel     # (ctx at recursive call, ctx at entry) -> formula: well-founded decrease (T6)
